@@ -75,7 +75,8 @@ struct Problem {
       } else {
         ld c = (mask & M_OTHER) ? C.a[j][j].real() * fR(ix, ir) : 0;
         ld r = r0.a[j][j].real();
-        R.a[j][j] = cld(a != 0 ? c / a + (r - c / a) * expl(-a * dt) : r + c * dt, 0);
+        // r e^{-a dt} + c (1 - e^{-a dt})/a, written without the cancellation of c/a for small a
+        R.a[j][j] = cld(r * expl(-a * dt) + c * (a * dt != 0 ? -expm1l(-a * dt) / a : dt), 0);
       }
     }
     return R;
@@ -86,7 +87,8 @@ struct Problem {
     if (!(mask & M_GS)) return s0 + c * (t1 - t0);
     if (c == 0) return s0 * expl(-(Gint(ix, is, t1) - Gint(ix, is, t0)));
     ld g = g0 * fS(ix, is);  // with a source g is constant (g_timedep is false by construction)
-    return c / g + (s0 - c / g) * expl(-g * (t1 - t0));
+    ld dt = t1 - t0;
+    return s0 * expl(-g * dt) + c * (g * dt != 0 ? -expm1l(-g * dt) / g : dt);
   }
 };
 
